@@ -1939,7 +1939,7 @@ def _driver(it, seg, F, req, by_name, by_visit):
     if seg.elem[0] == "TAINT" or len(seg.loops) != 1 or seg.loops[0].broken:
         return None, None, _seg_text([seg])
     lp = seg.loops[0]
-    if _in_order_over(lp, F) and seg.elem in by_visit(lp):
+    if (_in_order_over(lp, F) or lp.src == ("FIELDS", F) and not lp.unordered) and seg.elem in by_visit(lp):       # dtype.fields is a mapping in field order
         return "fields", lp, "the array's fields in dtype order"
     if lp.src[0] != "LIST" and seg.elem == by_name(("ELEM", lp.src, lp.id)):
         why = _scrambled(lp)
@@ -2477,10 +2477,13 @@ def _seq_split(chk, fi, it):
             v = e.d["value"]
             if e.d["implicit"]:
                 continue
-            if v[0] == "TUPLE" and len(v) == 3 and v[1][0] == "LIST":
+            if v[0] == "TUPLE" and len(v) == 3 and v[1][0] in ("LIST", "PHI"):
                 v = v[1]
-            if v[0] == "LIST" and v not in [x for x, _ in lists]:
-                lists.append((v, e))
+            # the list of views, or one list per way of getting here (`if fields is None: <all of them> else: <the requested ones>`)
+            alts = list(v[1:]) if v[0] == "PHI" and all(isinstance(x, tuple) and x and x[0] == "LIST" for x in v[1:]) else [v]
+            for x in alts:
+                if x[0] == "LIST" and x not in [y for y, _ in lists]:
+                    lists.append((x, e))
         by_name = lambda n: ("ITEM", data, n)  # noqa: E731
         by_visit = lambda lp: (("ITEM", data, ("NAME", F, ("K", lp.id))),)  # noqa: E731
         verdicts = []
@@ -2497,6 +2500,9 @@ def _seq_split(chk, fi, it):
                                             "array's field order, not in the order of `%s`" % (_seg_text([sg]), req)))
                 elif k == "request" and not [g for g in _filters(sg.guards) if not any(g is h for h in e.guards)]:
                     verdicts.append((True, ""))
+                elif k == "fields" and not [g for g in _filters(sg.guards) if not any(g is h for h in e.guards)] and \
+                        any(g.cond == ("ISNONE", ("P", req)) and g.pol for g in tuple(it.listctx.get(lst[1], ((), ()))[1]) + tuple(sg.guards)):
+                    verdicts.append((True, ""))      # no request (`fields is None`): every field, in dtype order
                 else:
                     verdicts.append((None, t))
         bad = [w for v, w in verdicts if v is False]
